@@ -172,7 +172,12 @@ class Connection(BaseProtocol):
             self.transport.close()
             return
 
-        self.authenticate(ident, secret, akrow)
+        try:
+            self.authenticate(ident, secret, akrow)
+        except Exception:
+            # As for data_received, an error while handling queued messages is fatal for this connection
+            log.exception("Unhandled exception handling messages queued behind OP_AUTH")
+            self.transport.close()
 
     def authenticate(self, ident, secret, akrow):
         if not akrow:
